@@ -375,6 +375,81 @@ fn run(ctx: &mut Ctx) {
             }
         }
     }
+    // structures of 2 GiB and of 4 GiB - 4: sizes whose top bit is set, and the largest size that still fits the 32-bit
+    // size field without being a multiple of 8 (content = many slices into one 64 MiB buffer)
+    ctx.bound("giant_structures", "new_boxed of a generic tag and a generic header tag with 2 GiB of content (declared size 0x80000008) followed by clone_dyn; new_boxed of a generic tag with a declared size of 0xFFFFFFFC (64 content slices): size field, in-memory size, content and clone compared in full");
+    for which in 0..3 {
+        ctx.leaf(|| J::obj().set("part", "giant_structures").set("case", ["tag of 2 GiB + 8, cloned", "header tag of 2 GiB + 8, cloned", "tag of 4 GiB - 4"][which]), |ctx| {
+            ctx.state_direct();
+            ctx.nontrivial();
+            const CH: usize = 64 << 20;
+            let chunk: Vec<u8> = (0..CH).map(|i| (i as u32).wrapping_mul(0x9E37_79B1).to_le_bytes()[3] | 1).collect();
+            let total: usize = if which == 2 { 0xFFFF_FFFC } else { 0x8000_0008 };
+            let n = total - 8;
+            let mut parts: Vec<&[u8]> = vec![];
+            let mut left = n;
+            while left > 0 {
+                let l = left.min(CH);
+                parts.push(&chunk[..l]);
+                left -= l;
+            }
+            let r = ctx.call("new_boxed + clone_dyn (giant)", || {
+                let check = |bytes: &[u8]| -> Option<String> {
+                    if bytes.len() != total {
+                        return Some(format!("{} bytes up to the declared size, expected {}", bytes.len(), total));
+                    }
+                    let mut o = 8;
+                    for p in &parts {
+                        if &bytes[o..o + p.len()] != *p {
+                            return Some(format!("content differs in the slice that starts at offset {}", o));
+                        }
+                        o += p.len();
+                    }
+                    None
+                };
+                if which == 1 {
+                    let b = new_boxed::<DynSizedStructure<HeaderTagHeader>>(HeaderTagHeader::new(HeaderTagType::Relocatable, HeaderTagFlag::Optional, 0), &parts);
+                    let size = b.header().size() as usize;
+                    let sov = std::mem::size_of_val(&*b);
+                    let bb = unsafe { std::slice::from_raw_parts(&*b as *const _ as *const u8, size.min(sov)) };
+                    let mut bad = check(bb);
+                    let c = clone_dyn::<DynSizedStructure<HeaderTagHeader>>(&b);
+                    let (cs, csov) = (c.header().size() as usize, std::mem::size_of_val(&*c));
+                    let cb = unsafe { std::slice::from_raw_parts(&*c as *const _ as *const u8, cs.min(csov)) };
+                    if bad.is_none() && (cs != size || csov != sov || cb != bb) {
+                        bad = Some(format!("the clone has size {} / in-memory size {} (original {} / {}) or different bytes", cs, csov, size, sov));
+                    }
+                    (size, sov, bad)
+                } else {
+                    let b = new_boxed::<DynSizedStructure<TagHeader>>(TagHeader::new(TagType::Custom(77), 0), &parts);
+                    let size = b.header().size as usize;
+                    let sov = std::mem::size_of_val(&*b);
+                    let bb = unsafe { std::slice::from_raw_parts(&*b as *const _ as *const u8, size.min(sov)) };
+                    let mut bad = check(bb);
+                    if which == 0 {
+                        let c = clone_dyn::<DynSizedStructure<TagHeader>>(&b);
+                        let (cs, csov) = (c.header().size as usize, std::mem::size_of_val(&*c));
+                        let cb = unsafe { std::slice::from_raw_parts(&*c as *const _ as *const u8, cs.min(csov)) };
+                        if bad.is_none() && (cs != size || csov != sov || cb != bb) {
+                            bad = Some(format!("the clone has size {} / in-memory size {} (original {} / {}) or different bytes", cs, csov, size, sov));
+                        }
+                    }
+                    (size, sov, bad)
+                }
+            });
+            match r {
+                Out::Panic => ctx.violation("c16/giant/panic", || format!("new_boxed / clone_dyn panicked for a structure of {:#x} bytes", total)),
+                Out::Val((size, sov, bad)) => {
+                    ctx.ob("giant.size", size as u64);
+                    if size != total || sov != round8(total) || bad.is_some() {
+                        ctx.violation("c16/giant/layout", || format!("structure of {:#x} bytes: size field {:#x}, in-memory size {:#x}; {}", total, size, sov, bad.unwrap_or_default()));
+                    } else {
+                        ctx.class("giant:ok");
+                    }
+                }
+            }
+        });
+    }
     // an allocator that hands out blocks back to back (a kernel's early bump allocator): the source slice ends exactly
     // where the new block begins, and a clone lies directly behind its original
     ctx.bound("adjacent_blocks", "under a bump allocator without gaps: new_boxed from one heap-allocated source slice of 0..=40 bytes that ends (a) exactly at, (b) 1..7 bytes before the fresh allocation, then clone_dyn of the result (the clone directly behind the original); generic tag header and DummyDstTag");
